@@ -26,6 +26,17 @@ type jsonDoc struct {
 
 type rawJSON struct{ text string }
 
+// trailingVariant: a JSON value followed by further non-whitespace bytes (a second value,
+// garbage): invalid as a document, but a streaming decoder's first Decode returns the value.
+type trailingVariant struct{ of SliceVal }
+
+// jsonReader / jsonDecoder: bytes.NewReader(data) and json.NewDecoder(reader) over modelled data
+type jsonReader struct{ data SliceVal }
+type jsonDecoder struct {
+	data SliceVal
+	used bool
+}
+
 // wsVariant: the same JSON text with insignificant whitespace added (different bytes, same
 // compact form, same decoded value).
 type wsVariant struct{ of SliceVal }
@@ -107,6 +118,57 @@ func registerJSONDoc(ex *Explorer) {
 	I[vrtPath+".RawJSON"] = func(in *Interp, fn *ssa.Function, a []Value) Value {
 		return SliceVal{Ext: &rawJSON{text: str(a[0])}}
 	}
+	// vrt.WithTrailing(content []byte) []byte
+	I[vrtPath+".WithTrailing"] = func(in *Interp, fn *ssa.Function, a []Value) Value {
+		sv := a[0].(SliceVal)
+		if sv.Ext == nil {
+			in.fail("unsupported", "WithTrailing of concrete bytes")
+		}
+		return SliceVal{Ext: &trailingVariant{of: sv}}
+	}
+	I["bytes.NewReader"] = func(in *Interp, fn *ssa.Function, a []Value) Value {
+		sv := a[0].(SliceVal)
+		if sv.Ext == nil && sv.Arr != nil {
+			in.fail("unsupported", "bytes.NewReader over concrete bytes (only modelled JSON data is supported)")
+		}
+		return &Cell{T: in.findType("bytes", "Reader"), Ext: &jsonReader{data: sv}}
+	}
+	I["encoding/json.NewDecoder"] = func(in *Interp, fn *ssa.Function, a []Value) Value {
+		iv, _ := a[0].(IfaceVal)
+		c, _ := iv.V.(*Cell)
+		var r *jsonReader
+		if c != nil {
+			r, _ = c.Ext.(*jsonReader)
+		}
+		if r == nil {
+			in.fail("unsupported", "json.NewDecoder over a reader that is not a modelled bytes.Reader")
+		}
+		return &Cell{T: in.findType("encoding/json", "Decoder"), Ext: &jsonDecoder{data: r.data}}
+	}
+	I["(*encoding/json.Decoder).DisallowUnknownFields"] = func(in *Interp, fn *ssa.Function, a []Value) Value { return nil }
+	// Decode reads the NEXT value of the stream: the first Decode yields the first value whatever
+	// follows it; a type with its own UnmarshalJSON gets that value's bytes
+	I["(*encoding/json.Decoder).Decode"] = func(in *Interp, fn *ssa.Function, a []Value) Value {
+		d := a[0].(*Cell).Ext.(*jsonDecoder)
+		if d.used {
+			in.fail("unsupported", "second Decode on a modelled json.Decoder")
+		}
+		d.used = true
+		data := d.data
+		if tv, ok := data.Ext.(*trailingVariant); ok {
+			data = tv.of
+		}
+		dst := a[1].(IfaceVal)
+		if dst.T != nil {
+			ms := in.Prog.MethodSets.MethodSet(dst.T)
+			if sel := ms.Lookup(nil, "UnmarshalJSON"); sel != nil {
+				if m := in.Prog.MethodValue(sel); m != nil {
+					return in.call(m, []Value{dst.V, data}, nil)
+				}
+			}
+		}
+		return in.Ex.intercepts["encoding/json.Unmarshal"](in, fn, []Value{data, dst})
+	}
 	// vrt.Reformat(content []byte) []byte
 	I[vrtPath+".Reformat"] = func(in *Interp, fn *ssa.Function, a []Value) Value {
 		sv := a[0].(SliceVal)
@@ -119,6 +181,11 @@ func registerJSONDoc(ex *Explorer) {
 		sv := a[0].(SliceVal)
 		if w, ok := sv.Ext.(*wsVariant); ok {
 			return w.of
+		}
+		if _, ok := sv.Ext.(*trailingVariant); ok {
+			// json.Compact fails on trailing data; jsonlen.Compact ignores the error and returns what
+			// was written before it: not a document any decoder below accepts
+			return SliceVal{Ext: &rawJSON{text: "<invalid>"}}
 		}
 		if sv.Ext == nil && sv.Arr != nil {
 			in.fail("unsupported", "jsonlen.Compact of concrete bytes (only modelled documents are supported)")
